@@ -236,6 +236,31 @@ func c27New[T any](f *c27Filler) T {
 // instants and errors by message; nil and empty slices stay different.
 func c27Equal(a, b any) bool { return c27EqV(reflect.ValueOf(a), reflect.ValueOf(b), 0) }
 
+// c27DiffPath: where the first difference is, with indices erased (`.Items[i].Message.SyncOnce`).
+func c27DiffPath(a, b any) string {
+	d := c27Diff(reflect.ValueOf(a), reflect.ValueOf(b), "")
+	if i := strings.Index(d, ": "); i >= 0 {
+		d = d[:i]
+	}
+	var out []byte
+	skip := false
+	for i := 0; i < len(d); i++ {
+		switch {
+		case d[i] == '[':
+			skip = true
+			out = append(out, '[', 'i', ']')
+		case d[i] == ']':
+			skip = false
+		case !skip && d[i] != ' ':
+			out = append(out, d[i])
+		}
+	}
+	if len(out) == 0 {
+		return "?"
+	}
+	return string(out)
+}
+
 // c27Diff describes the first difference (debugging aid: C27_DEBUG=1).
 func c27Diff(a, b reflect.Value, path string) string {
 	if !a.IsValid() || !b.IsValid() || a.Type() != b.Type() {
@@ -520,7 +545,7 @@ func c27RoundTrip(c *c27Codec, seed uint64) string {
 	if err != nil {
 		rt = "err"
 	} else if !c.equal(v, got) {
-		rt = "neq"
+		rt = "neq:" + c27DiffPath(v, got)
 	}
 	// every truncation
 	accepted, noncanon := 0, 0
